@@ -12,10 +12,44 @@ impl Value {
     { unimplemented!() }
 }
 
+// "structurally equal copy" (what crossing a channel means for a value); uninterpreted
+pub uninterp spec fn same_value(a: Value, b: Value) -> bool;
+
+// api::Generic<A> / thread::RootedValue: wrappers around one Value
+pub struct Generic { pub v: Value }
+pub struct RootedValue { pub v: Value }
+impl Generic {
+    #[verifier::external_body]
+    pub fn get_value(&self) -> (r: &Value) ensures *r == self.v { unimplemented!() }
+}
+impl RootedValue {
+    #[verifier::external_body]
+    pub fn get_value(&self) -> (r: &Value) ensures *r == self.v { unimplemented!() }
+}
+#[verifier::external_body]
+pub struct VmError { _p: () }
+#[verifier::external_body]
+pub struct ThreadPtr { _p: () }
+impl ThreadPtr {
+    // ASSUMED contract of Thread::deep_clone_value: a structurally equal copy in the receiving heap, or an error
+    #[verifier::external_body]
+    pub fn deep_clone_value(&self, owner: &ThreadPtr, value: &Value) -> (r: Result<RootedValue, VmError>)
+        ensures r is Ok ==> same_value(r->Ok_0.v, *value)
+    { unimplemented!() }
+}
+// api::IO: same variants
+pub enum IO<T> { Value(T), Exception(String) }
+// api::Unrooted<A>: wrapper around one Value
+pub struct Unrooted { pub v: Value }
+impl Unrooted {
+    #[verifier::external_body]
+    pub fn from(v: Value) -> (r: Unrooted) ensures r.v == v { unimplemented!() }
+}
+
 // Sender/Receiver projected to the one field the extracted bodies touch.  In the real code both hold
 // `queue: Arc<Mutex<VecDeque<Value>>>` pointing to the *same* deque; under R-lock each body is the
 // critical section on that deque.
-pub struct Sender { pub queue: VecDeque<Value> }
+pub struct Sender { pub thread: ThreadPtr, pub queue: VecDeque<Value> }
 pub struct Receiver { pub queue: VecDeque<Value> }
 
 // ---- the property as a lemma over the two contracts --------------------------------------
